@@ -28,7 +28,7 @@ F('regex__add_conflicted_term', r'constexpr\s+void\s+add_conflicted_term\(confli
 
 F('regex__dfa_match', r'constexpr\s+auto\s+dfa_match\(\s*const dfa<N>& sm,\s*match_options options,\s*source_point sp,\s*Iterator start,\s*Iterator end,\s*ErrorStream& error_stream\)',
   'struct recognized_term regex__dfa_match(const struct dfa* sm, struct match_options options, struct source_point sp, const char* start, const char* end)',
-  rules=[EMIT, RD, S(r'recognized_term rt;', 'struct recognized_term rt = recognized_term__default();', name='R16'),
+  rules=[RangeFor([(r'state\.conflicted_recognition', '4', 'state->conflicted_recognition[vx_idx({i}, 4)]', 'size16_t', False)], min=0), EMIT, RD, S(r'recognized_term rt;', 'struct recognized_term rt = recognized_term__default();', name='R16'),
          S(r'const auto& state = sm\[([^;]*)\];', r'const struct dfa_state* state = &sm->the_data[vx_idx(\1, sm->current_size)];', name='R4:cvector-operator[]'),
          S(r'\bstate\.', 'state->'), Call(r'sp\.update', 'source_point__update(&sp, {args})', name='R4:sp.update'),
          Bound(r'state->conflicted_recognition', ['4']), Bound(r'state->transitions', ['256'])])
